@@ -133,11 +133,13 @@ def _fs_with(files):
 
 
 class _SaveSpy:
-    """Records the in-memory truth every time the real save_sampler_state is called."""
+    """Records the in-memory truth, the I/O log segment and the pre-save files every time the real save_sampler_state is called."""
 
-    def __init__(self):
+    def __init__(self, fs=None):
         self.saves = []
         self.save_exc = None
+        self.fs = fs
+        self.segments = []  # (path, base_files, log_start, log_end)
 
     def __enter__(self):
         import tempest.core as core
@@ -145,13 +147,17 @@ class _SaveSpy:
         self.orig = core.SamplerCore.save_sampler_state
         spy = self
 
-        def wrapped(self_, path):
+        def wrapped(self_, path, *a, **k):
+            base = dict(spy.fs.files) if spy.fs is not None else None
+            start = len(spy.fs.log) if spy.fs is not None else 0
             try:
-                r = spy.orig(self_, path)
+                r = spy.orig(self_, path, *a, **k)
             except Exception as e:
                 spy.save_exc = e
                 raise
             spy.saves.append((str(path), {"state": snap(self_.state), "n_total": getattr(self_, "n_total", None)}))
+            if spy.fs is not None:
+                spy.segments.append((str(path), base, start, len(spy.fs.log)))
             return r
 
         core.SamplerCore.save_sampler_state = wrapped
@@ -159,6 +165,86 @@ class _SaveSpy:
 
     def __exit__(self, *a):
         self.core.SamplerCore.save_sampler_state = self.orig
+
+
+def _in_save_path(exc):
+    import traceback
+    return any("save" in fr.name for fr in traceback.extract_tb(exc.__traceback__))
+
+
+def _enumerate_crashes(res, fs, path, base_files, ops, cc, th, label):
+    """Every prefix of `ops` x torn offsets of the in-flight write: `path` must be absent/old/new."""
+    final = fs.image(base_files, ops, len(ops))
+    new, old = final.get(path), base_files.get(path)
+    if new is None:
+        res.violate("save:no-file", f"{label}: save returned but {path} does not exist", cc)
+        return 0
+    images = 0
+    for k in range(len(ops) + 1):
+        torn = [None]
+        if k < len(ops) and ops[k][0] == "write":
+            torn = [None] + _offsets(len(ops[k][3]), th)
+        for t in torn:
+            img = fs.image(base_files, ops, k, torn=t)
+            images += 1
+            res.evals += 1
+            content = img.get(path)
+            extra = sorted(n for n in img if n not in base_files and n != path)
+            ok = (content is None and old is None) or (content is not None and (content == new or (old is not None and content == old)))
+            desc = "absent" if content is None else ("new" if content == new else ("old" if content == old else f"partial({len(content)}B of {len(new)}B)"))
+            if not ok:
+                res.violate(f"crash:final-name:{label}:{'overwrite' if old is not None else 'first'}:{desc.split('(')[0]}",
+                            f"{label}: crash after {k} of {len(ops)} I/O operations{'' if t is None else f' + {t} bytes of the next write'}: {path} is {desc}; "
+                            f"it must be absent/old/new (ops={[o[0] for o in ops]})", dict(cc, k=k, torn=t))
+            if len(extra) > 1:
+                res.violate("crash:stray-names", f"{label}: crash image contains unexpected files {extra}", dict(cc, k=k, torn=t))
+            res.outcome((label, path, k, t, desc, tuple(extra)), nontrivial=(content is not None or bool(extra)))
+    res.states += images
+    res.bump("crash_images", images)
+    res.bump("io_ops", len(ops))
+    return images
+
+
+def run_crash_run(case):
+    """Crash points of EVERY checkpoint written by run(save_every=1) / sample(save_every=1) themselves (periodic and final saves)."""
+    res = Res()
+    cfg = dict(case["cfg"])
+    cfg.update(save_every=1, output_dir="/memfs/out", output_label="r")
+    fs = MemFS()
+    with _SaveSpy(fs) as spy:
+        p = Probe(cfg, base=case["base"], fs=fs)
+        if case["driver"] == "run":
+            p.run()
+        else:
+            from mc import pipeline as _pl
+            prev = _pl._ACTIVE
+            _pl._ACTIVE = p
+            try:
+                with env.quiet(), _pl.instrumented(), p.tape, p._mount():
+                    p.sampler._core._initialize_fresh()
+                    for _ in range(4):
+                        p.sampler.sample(save_every=1)
+            except Exception as e:
+                p.exc = e
+            finally:
+                _pl._ACTIVE = prev
+    cc = dict(case)
+    if p.exc is not None:
+        if spy.save_exc is not None or _in_save_path(p.exc):
+            res.violate(f"save:raises:{type(p.exc).__name__}", f"a checkpoint save during {case['driver']}(save_every=1) raised {p.exc!r} (cfg={case['cfg']})", cc)
+        else:
+            res.bump("aborted_runs_not_in_save")
+        return res
+    if not spy.segments:
+        res.violate("save:none", f"{case['driver']}(save_every=1) wrote no checkpoint", cc)
+        return res
+    for (path, base, a, b) in spy.segments:
+        if case.get("path") and case["path"] != path:
+            continue
+        n = _enumerate_crashes(res, fs, path, base, fs.log[a:b], dict(cc, path=path), case["thorough"], f"{case['driver']}-save")
+    res.traces += 1
+    res.sample({"driver": case["driver"], "cfg": case["cfg"], "checkpoints": [s[0] for s in spy.segments]}, cap=1)
+    return res
 
 
 def _resume_monitor(k, truth, prefix_digest):
@@ -192,7 +278,7 @@ def run_resume(case):
 
     def one(symbols):
         fs = MemFS()
-        with _SaveSpy() as spy:
+        with _SaveSpy(fs) as spy:
             p = Probe(cfg, symbols=symbols, base=case["base"], fs=fs)
             p.run()
         res.evals += 1
@@ -200,8 +286,9 @@ def run_resume(case):
         res.trans += p.events
         cc = dict(kind="resume1", cfg=case["cfg"], base=case["base"], symbols={str(a): b for a, b in symbols.items()})
         if p.exc is not None:
-            if spy.save_exc is not None:
-                res.violate(f"save:raises:{type(spy.save_exc).__name__}", f"saving a checkpoint during run(save_every=1) raised {spy.save_exc!r} (cfg={case['cfg']})", cc)
+            if spy.save_exc is not None or _in_save_path(p.exc):
+                e_ = spy.save_exc or p.exc
+                res.violate(f"save:raises:{type(e_).__name__}", f"saving a checkpoint during run(save_every=1) raised {e_!r} (cfg={case['cfg']})", cc)
             else:
                 res.bump("aborted_runs_not_in_save")  # C18/C14 own crashes outside the save path
             return p.iters
@@ -251,6 +338,20 @@ def run_resume(case):
                 res.violate(key, msg + f" [resume from {path}, cfg={case['cfg']}]", ck)
             for key, msg in terminal_errors(q):
                 res.violate("resume:" + key, msg + f" [resume from {path}]", ck)
+            # (3) resuming with a LARGER sample-size target must meet the requested target (post-conditions of the resumed run)
+            if idx in (0, len(spy.saves) // 2):
+                big = dict(rcfg, n_total=3 * cfg["n_total"])
+                q2 = Probe(big, symbols=symbols, base=case["base"], fs=fs, iter_offset=int(k), max_iters=200)
+                q2.run(resume_state_path=path)
+                res.evals += 1
+                res.trans += q2.events
+                if q2.exc is not None:
+                    res.violate(f"resume:raises:{type(q2.exc).__name__}", f"run(resume_state_path={path}, n_total={big['n_total']}) raised {q2.exc!r}", ck)
+                else:
+                    for key, msg in terminal_errors(q2):
+                        res.violate("resume-larger-n_total:" + key, msg + f" [resumed from {path} (written with n_total={cfg['n_total']}) asking for n_total={big['n_total']}]", ck)
+                    if getattr(q2.sampler._core, "n_total", None) != big["n_total"]:
+                        res.violate("resume-larger-n_total:n_total", f"sampler reports n_total={getattr(q2.sampler._core, 'n_total', None)} after run(n_total={big['n_total']}) on resume", ck)
             if len(q.state._history["beta"]) < T0:
                 res.violate("resume:history-lost", f"history has {len(q.state._history['beta'])} batches after resuming from one with {T0}", ck)
             res.outcome(("resume", tuple(sorted((a, repr(b)) for a, b in case["cfg"].items())), tuple(sorted(symbols.items())), idx), nontrivial=T0 > 0)
@@ -280,7 +381,7 @@ def run_resume1(case):
     return r
 
 
-KINDS = {"crash": run_crash, "resume": run_resume, "resume1": run_resume1}
+KINDS = {"crash_run": run_crash_run, "crash": run_crash, "resume": run_resume, "resume1": run_resume1}
 
 FACTORS = [
     ("clustering", [False, True]),
@@ -301,6 +402,12 @@ def plan(ctx):
                 if api == "statemanager" and (clu or ev != "scalar"):
                     continue
                 crash.append({"kind": "crash", "cfg": dict(clustering=clu, eval=ev, n_particles=16 if not th else 48), "api": api, "base": ctx.seed, "thorough": th})
+    for clu in (False, True):
+        for ev in ("scalar", "blobs", "poolobj"):
+            for driver in ("run", "sample"):
+                if not th and driver == "sample" and (clu or ev != "scalar"):
+                    continue
+                crash.append({"kind": "crash_run", "cfg": dict(clustering=clu, eval=ev, n_particles=16, n_total=64), "driver": driver, "base": ctx.seed, "thorough": th})
     ctx.explore("crash-points", crash)
     strength = 3 if th else 2
     rows = lattice.covering_array(FACTORS, strength=strength, seed=ctx.seed)
